@@ -153,7 +153,8 @@ func combinePorts(as string, bs string) (string, error) {
 	bBitset := parsePorts(bs)
 
 	aBitset.InPlaceIntersection(bBitset)
-	if aBitset.Len() == 0 {
+	if aBitset.None() {
+		// No port in common (Len() is the capacity of the bitset, not the number of set bits).
 		return "", policysets.ErrRuleIsNoOp
 	}
 
@@ -167,7 +168,8 @@ func combinePorts(as string, bs string) (string, error) {
 
 		afterEndOfRange, valid := aBitset.NextClear(startOfRange + 1)
 		if !valid {
-			panic("bitset said no end of range")
+			// The range extends to the last bit held by the bitset.
+			afterEndOfRange = aBitset.Len()
 		}
 		endOfRange := afterEndOfRange - 1
 
